@@ -14,7 +14,8 @@ EXPLANATION = (
     "(KEY-NORM) within dict_* and within set_* every access to the container by the key parameter uses the same "
     "normaliser (tostring(k)); (CONSTRUCTOR) functions of one family build their result with that family's constructor; "
     "(MAYBE-SHAPE) every Maybe built in Lua has the shape the compiler emits: {\"Just\", v} / {\"None\", __NIL}; (INDEX-BASE) "
-    "list accesses by a Sylt index add 1, pop/last use length - 1; (GLOBAL-LEAK) accidental global writes inside library "
+    "list accesses by a Sylt index add 1, pop/last use length - 1; (INDEX-BOUNDS) a guard on a Sylt index lets both ends of "
+    "the valid range through; (GLOBAL-LEAK) accidental global writes inside library "
     "functions are reported as information."
 )
 UNDECIDED = "model equivalence over operation histories, the semantics of map/filter/fold callbacks, iteration order of pairs()."
@@ -84,6 +85,7 @@ def run(F, rep, tier):
     constructors(rep, lua)
     maybe_shape(F, rep, lua)
     index_base(rep, lua)
+    index_bounds(rep, lua)
     global_leak(rep, lua)
 
 
@@ -281,6 +283,72 @@ def index_base(rep, lua):
                             keys = [luaparse.show(x["key"]) for x in luaparse.walk(blk) if x.get("k") == "Index" and not x.get("dot") and luaparse.show(x["obj"]) == o]
                             found = bool(keys) and all(k == "(%s + 1)" % i for k in keys)
             rep.ob("INDEX-BASE", name, found, "%s addresses tuple/list element i at Lua position i + 1" % name)
+
+
+def _lua_eval(e, env):
+    """evaluate a Lua condition over integers: names from env, `#name` from env['#name']"""
+    k = e.get("k")
+    if k == "Number":
+        return int(float(e["v"]))
+    if k == "Name":
+        return env[e["name"]]
+    if k == "Const":
+        return {"true": True, "false": False, "nil": None}[e["v"]]
+    if k == "Paren":
+        return _lua_eval(e["e"], env)
+    if k == "Unop":
+        if e["op"] == "#":
+            return env["#" + luaparse.show(e["e"])]
+        v = _lua_eval(e["e"], env)
+        return (not v) if e["op"] == "not" else -v
+    if k == "Binop":
+        op = e["op"]
+        if op == "and":
+            l = _lua_eval(e["l"], env)
+            return _lua_eval(e["r"], env) if l else l
+        if op == "or":
+            l = _lua_eval(e["l"], env)
+            return l if l else _lua_eval(e["r"], env)
+        l, r = _lua_eval(e["l"], env), _lua_eval(e["r"], env)
+        return {"<": lambda: l < r, ">": lambda: l > r, "<=": lambda: l <= r, ">=": lambda: l >= r, "==": lambda: l == r,
+                "~=": lambda: l != r, "+": lambda: l + r, "-": lambda: l - r, "*": lambda: l * r}[op]()
+    raise KeyError(k)
+
+
+def index_bounds(rep, lua):
+    """a guard on a Sylt index must let every valid index through: for a list of n >= 1 elements the guard is evaluated
+    at i = 0 and i = n - 1 (the conditions are linear in i and #l, so the two ends of the range decide it)"""
+    for name in ("list_set", "list_get"):
+        g = lua.globals.get(name)
+        if not g or g[0] != "function":
+            continue
+        f = g[1]
+        l, i = f["params"][0], f["params"][1]
+        n_guards = 0
+        for st in luaparse.walk(f["body"]):
+            if st.get("k") != "If":
+                continue
+            cond = st["clauses"][0][0]
+            names = {x["name"] for x in luaparse.walk(cond) if x.get("k") == "Name"}
+            if i not in names:
+                continue
+            # the guarded block must be the one that touches l[i+1]
+            touches = any(x.get("k") == "Index" and luaparse.show(x["obj"]) == l for x in luaparse.walk(st["clauses"][0][1]))
+            if not touches:
+                continue
+            n_guards += 1
+            bad = []
+            for n in (1, 2, 5):
+                for iv in (0, n - 1):
+                    try:
+                        if not _lua_eval(cond, {i: iv, "#" + l: n}):
+                            bad.append((n, iv))
+                    except (KeyError, TypeError):
+                        bad.append(("?", "?"))
+            rep.ob("INDEX-BOUNDS", "%s|guard" % name, not bad,
+                   "%s guards its access with `%s`; valid indices rejected (length, index): %s" % (name, luaparse.show(cond), bad or "none"),
+                   "sylt-compiler/src/preamble.lua:%s" % st.get("line"))
+        rep.ob("INDEX-BOUNDS", "%s|census" % name, True, "%d index guard(s) in %s evaluated at both ends of the valid range" % (n_guards, name), sites=n_guards)
 
 
 def global_leak(rep, lua):
